@@ -116,6 +116,18 @@ func c04Case(w *rt.W, s uint64, cfg int, containers bool) {
 	} else if len(mt) == 0 || mt[len(mt)-1] != 'B' || string(mt) == dec {
 		fail("text-form-kind", "MarshalText with unit", string(mt), "digits followed by a unit")
 	}
+	{ // the marshalled text written over a longer record in a reused buffer: digits stay behind its end
+		rec := append(append(make([]byte, 0, len(mt)+24), mt...), "7216543298765432"...)
+		var ur size.Size
+		if err := ur.UnmarshalText(rec[:len(mt)]); err != nil || ur != sz {
+			fail("text-roundtrip", "MarshalText -> UnmarshalText of the text in front of spare capacity holding digits ("+string(mt)+")", fmt.Sprint(uint64(ur), " err=", err), dec)
+		}
+		rec2 := append(append(make([]byte, 0, len(dec)+24), dec...), "7216543298765432"...)
+		if g, err := size.DefaultParser(rec2[:len(dec)], 0); err != nil || g != sz {
+			fail("rendering-roundtrip", "BytesString -> DefaultParser of the digits in front of spare capacity holding digits", fmt.Sprint(uint64(g), " err=", err), dec)
+		}
+		w.Eval(2)
+	}
 	ut := size.Size(s ^ 0x7777) // the receivers already hold another size
 	err = ut.UnmarshalText(append([]byte(nil), mt...))
 	w.Eval(1)
